@@ -415,6 +415,11 @@ func runFilters(t *testing.T, rc *core.RunCtx) {
 		// the others have been served
 		hb.BaseLatency = time.Duration(300+tp.Intn(3000)) * time.Millisecond
 	}
+	if rc.Prop == "C04" && tp.Chance(1, 6) {
+		// the first connection(s) to the honest node die during the
+		// handshake; it has to be dialled again
+		hb.HandshakeDrops = 1 + tp.Intn(2)
+	}
 	w.addPeer("honest", plan.main, hb)
 	nLiars := 0
 	for i := 1; i < nPeers; i++ {
